@@ -490,6 +490,101 @@ fn check_none_input(i: usize) -> Verdict {
     Ok(())
 }
 
+/// A tree of `and` / `or` / `!` / `if` over atoms that all speak about ONE subject (a field, a symbol or a path that is
+/// None, missing, or a plain value): comparisons of the subject with other operands in both orders, `some` / `none` of it,
+/// membership tests with it on either side, conversions, arithmetic, a step into a list literal holding it. Shapes that an
+/// implementation may special-case (`x == a or x == b`, `some(x) and x != a`, `a - -x`, `[x, a].0`, `x in :list`) arise by
+/// construction; the oracle is the reference evaluator.
+pub(crate) fn subject_case(bytes: &[u8]) -> EvalCase {
+    let mut d = Dec::new(bytes);
+    let facts = pool::map(&[
+        ("vn", Value::None),
+        ("wn", Value::None),
+        ("vi", Value::Int(5)),
+        ("vs", Value::String("W".into())),
+        ("vl", Value::Vec(vec![Value::Int(5), Value::None, Value::String("W".into())])),
+        ("vm", pool::map(&[("a", Value::Int(5)), ("n", Value::None)])),
+        ("vd", pool::dt(1_700_000_000, 0)),
+        ("vu", pool::du(90, 0)),
+    ]);
+    let mut symbols = std::collections::BTreeMap::new();
+    symbols.insert("sn".to_string(), Value::None);
+    symbols.insert("si".to_string(), Value::Int(5));
+    symbols.insert("sl".to_string(), Value::Vec(vec![Value::Int(5), Value::None]));
+    let mut fns = std::collections::BTreeMap::new();
+    fns.insert("fa".to_string(), me::FnSpec { cacheable: true, fail_on: vec![], fail_first: 0, uncacheable_after: 0 });
+    let idx = |e: Expr, k: &str| Expr::index(e, Index::Map(k.into()));
+    let subjects: Vec<Expr> = vec![
+        Expr::reff("vn"),
+        Expr::reff("vi"),
+        Expr::reff("vs"),
+        Expr::symbol("sn"),
+        Expr::symbol("si"),
+        idx(Expr::reff("vm"), "n"),
+        idx(Expr::reff("vm"), "a"),
+        idx(Expr::reff("vm"), "nokey"),
+        Expr::index(Expr::reff("vl"), Index::Vec(1)),
+        Expr::index(Expr::reff("vl"), Index::Vec(9)),
+        Expr::index(Expr::symbol("sl"), Index::Vec(1)),
+        Expr::reff("vd"),
+        Expr::reff("vu"),
+        Expr::reff("vl"),
+        Expr::symbol("sl"),
+    ];
+    let x = subjects[d.below(subjects.len())].clone();
+    fn operand(d: &mut Dec, subjects: &[Expr]) -> Expr {
+        match d.below(12) {
+            0..=4 => subjects[d.below(subjects.len())].clone(),
+            5 => Expr::value(Value::None),
+            6 => Expr::value(5),
+            7 => Expr::value("W".to_string()),
+            8 => Expr::value(true),
+            9 => Expr::Vec(vec![Expr::value(5), Expr::value(Value::None)]),
+            10 => Expr::func("fa", Expr::value(5)),
+            _ => Expr::Value(pool::du(90, 0)),
+        }
+    }
+    fn atom(d: &mut Dec, x: &Expr, subjects: &[Expr]) -> Expr {
+        let a = operand(d, subjects);
+        let cmps: [fn(Expr, Expr) -> Expr; 6] = [Expr::eq, Expr::neq, Expr::gt, Expr::gte, Expr::lt, Expr::lte];
+        match d.below(16) {
+            0..=5 => {
+                let c = cmps[d.below(6)];
+                if d.bool() {
+                    c(x.clone(), a)
+                } else {
+                    c(a, x.clone())
+                }
+            }
+            6 => Expr::some(x.clone()),
+            7 => Expr::none(x.clone()),
+            8 => Expr::contains(Expr::Vec(vec![a, operand(d, subjects)]), x.clone()),
+            9 => Expr::contains(x.clone(), a),
+            10 => Expr::eq(Expr::int(x.clone()), a),
+            11 => Expr::eq(Expr::sub(a, Expr::neg(x.clone())), Expr::value(10)),
+            12 => Expr::eq(Expr::add(x.clone(), a), Expr::value(10)),
+            13 => Expr::some(Expr::index(Expr::Vec(vec![x.clone(), a]), Index::Vec(d.below(3)))),
+            14 => Expr::eq(Expr::func("fa", x.clone()), Expr::func("fa", a)),
+            _ => Expr::gt(Expr::sub(x.clone(), a), Expr::value(0)),
+        }
+    }
+    fn tree(d: &mut Dec, x: &Expr, subjects: &[Expr], depth: u32) -> Expr {
+        if depth == 0 {
+            return atom(d, x, subjects);
+        }
+        match d.below(8) {
+            0 | 1 => Expr::and(tree(d, x, subjects, depth - 1), tree(d, x, subjects, depth - 1)),
+            2 | 3 => Expr::or(tree(d, x, subjects, depth - 1), tree(d, x, subjects, depth - 1)),
+            4 => Expr::not(tree(d, x, subjects, depth - 1)),
+            5 => Expr::iif(tree(d, x, subjects, depth - 1), tree(d, x, subjects, depth - 1), tree(d, x, subjects, depth - 1)),
+            _ => atom(d, x, subjects),
+        }
+    }
+    let depth = 1 + d.below(3) as u32;
+    let expr = tree(&mut d, &x, &subjects, depth);
+    EvalCase { expr, facts, fns, symbols }
+}
+
 pub(crate) fn check_deep(case: &EvalCase) -> Verdict {
     let o = observe(case);
     super::c02::judge(case, &o.actual, &o.model).map_err(|i| Issue::new(i.sig.replace("table:", "none-tree:"), i.msg))
@@ -772,6 +867,29 @@ pub fn run(ctx: &Ctx) {
             check_deep(&case)
         },
         |i| c2.cell(i).to_json(),
+        "deepnone",
+    );
+
+    let nsub = ctx.tier.pick(300_000u64, 4_000_000u64);
+    ctx.random(
+        "trees-about-one-subject",
+        nsub,
+        || gen::recipe(120),
+        |bytes, acc| {
+            let case = subject_case(bytes);
+            let o = observe(&case);
+            if let Some(acc) = acc {
+                let class = match &o.model {
+                    Ok(Value::None) => "subject:none",
+                    Ok(_) => "subject:value",
+                    Err(me::MErr::InvalidType) => "subject:type-error",
+                    Err(_) => "subject:other-error",
+                };
+                acc.case(class, true, || case.render());
+            }
+            super::c02::judge(&case, &o.actual, &o.model).map_err(|i| Issue::new(i.sig.replace("table:", "none-tree:subject:"), i.msg))
+        },
+        |bytes| subject_case(bytes).to_json(),
         "deepnone",
     );
 
